@@ -61,6 +61,9 @@ var ics struct {
 	alias  map[string]string // registered ERC20 alias of a coin -> the coin's denomination
 	// nested: what the wrapper does before the transfer proper (the automatic ERC20 -> coin conversion), in the context given
 	nested func(ctx sdk.Context, m *transfertypes.MsgTransfer)
+	// grantWrite: called with the context of every grant write (save / delete) before it takes effect; lets a harness keep a
+	// copy of the grant in the context's own store and make the SDK gas meter run out at that write
+	grantWrite func(ctx sdk.Context, a authz.Authorization)
 }
 
 func icsKey(grantee, granter sdk.AccAddress) string { return grantee.String() + "|" + granter.String() }
@@ -89,6 +92,9 @@ func icsGetAuthorization(k authzkeeper.Keeper, ctx sdk.Context, grantee, granter
 	return g.auth, g.exp
 }
 func icsSaveGrant(k authzkeeper.Keeper, ctx sdk.Context, grantee, granter sdk.AccAddress, a authz.Authorization, expiration *time.Time) error {
+	if ics.grantWrite != nil {
+		ics.grantWrite(ctx, a)
+	}
 	ics.grants[icsKey(grantee, granter)] = &icsGrant{auth: a, exp: expiration}
 	return nil
 }
@@ -96,6 +102,9 @@ func icsDeleteGrant(k authzkeeper.Keeper, ctx sdk.Context, grantee, granter sdk.
 	key := icsKey(grantee, granter)
 	if _, ok := ics.grants[key]; !ok {
 		return errors.New("authorization not found")
+	}
+	if ics.grantWrite != nil {
+		ics.grantWrite(ctx, nil)
 	}
 	delete(ics.grants, key)
 	return nil
